@@ -159,4 +159,11 @@ def dump (cfg : Cfg) (st : State) : List (Bytes × Int) :=
     | some s => if s.counter ≥ cfg.threshold then some (k, s.counter) else none
     | none => none
 
+/-- every source entry with its counter, sorted by id (what the verif accessor `VerifCounters` shows) -/
+def dumpAll (st : State) : List (Bytes × Int) :=
+  (sortedKeys st.keys).filterMap fun k =>
+    match st.m k with
+    | some s => some (k, s.counter)
+    | none => none
+
 end FileD.Antispam
